@@ -1,6 +1,7 @@
 package main
 
 import (
+	"os"
 	"fmt"
 	"go/ast"
 	"go/constant"
@@ -400,6 +401,11 @@ func runC08(r *Run, p *Prog) {
 	})
 	// ---- B5
 	r.Guard("B5", func() {
+		if os.Getenv("VLDEBUG") == "segs" {
+			for _, fr := range w.Segs {
+				fmt.Fprintf(os.Stderr, "SEG %s: %q\n", fr.Fn, fr.Text)
+			}
+		}
 		ng := 0
 		for _, fr := range w.Segs {
 			if i := strings.Index(fr.Text, "GetParameters(&in)"); i >= 0 {
